@@ -1,5 +1,6 @@
 """C06 - any revoked commitment the counterparty confirms is fully punished (structural part)."""
 from engine import *
+import provenance
 import tlv
 
 MONP = 'lightning::chain::channelmonitor::'
@@ -349,4 +350,5 @@ RULES = [
 	('06.g', 'revoked package variants are wired to the justice signer methods', r06g),
 	('06.i', 'splice: HTLC output indices remapped to the new commitment; claim re-issue timers are only pulled earlier by deadlines', r06i),
 	('06.h', 'justice claims stay valid: re-queued claims carry the latest request state; reorg boundary keeps confirmed spends', r06h),
+	('06.p', 'same-name field transfer: structs carrying this property\'s quantities are filled from the same-named field or a reviewed alias (rules/provenance.py)', lambda F: provenance.for_property(F, 'C06', '06.p')),
 ]
